@@ -12,10 +12,14 @@ Formalisation of "retries a failing queue no faster than once per RetryInterval"
 clock readings are monotone and whose timers do not fire early (`WellTimed`, the two guarantees of the Go runtime),
 * after a `Pop()`/`Push()` error whose clock reading is `t`, no later iteration ticks (and so calls `Pop()`) before
   `t + RetryInterval` — whatever faults and however many interrupts follow;
-* after a `Size()`/`Head()` error the timer of the same iteration is armed with `RetryInterval`: the `Pop()` that
-  follows comes at least `RetryInterval` later; only an interrupt token (an API call / `Reset()`) ends that wait early.
-Hence after an error the loop makes at most one more queue call per interrupt token (the `Size()` that starts an
-iteration) until `RetryInterval` has passed. The real call rate is observed by `qh faults` (burst scenario).
+* after a `Size()`/`Head()` error whose clock reading is `t` the timer of the same iteration is armed with
+  `RetryInterval` and the same deadline `t + RetryInterval` is set: no later iteration ticks before it either;
+* and until the deadline the loop does not ask the queue ANYTHING: an iteration inside the back-off window makes no
+  `Size()` and no `Head()` call (the back-off test comes before `Size()`), so an interrupt token (an API call /
+  `Reset()`) that ends the wait early only makes the loop arm the timer for the same deadline again
+  (`C15_backoff`, `C15_backoff_step`, `C15_size_retry_kept` in `Theorems/C15F4.lean`; before the repair of finding F4
+  every interrupt made the loop ask a failing `Size()` again: `C15_size_retry_full_fails`).
+The real call rate is observed by `qh faults` (burst scenarios, also under API traffic).
 
 Recovery (`C15_recovers`, `C15_deadline_not_postponed`): the back-off deadline is fixed when the error happens and
 interrupts do not move it; fault-free iterations never touch it; outside the back-off window a fault-free iteration
@@ -46,19 +50,22 @@ def armOf (s : String) : Arm :=
 /-- the regenerated facts as a `Shape`. The case labels must appear in the order of the source; a missing,
     reordered or unknown case yields a shape that fails `WF`. -/
 def shape : Shape :=
-  let common (a1 : String) (bo : Backoff) (a2 a3 a4 : String) : Shape :=
+  let common (first : Bool) (a1 : String) (bo : Backoff) (a2 a3 a4 : String) : Shape :=
     { onSizeErr := armOf a1, backoff := bo, onBackoff := armOf a2, onEmpty := armOf a3, onDefault := armOf a4,
+      backoffFirst := first && decide (sizeGuard = "guarded"), stateFromArm := stateFromArm,
       headErr := armOf headErrReturns, headEmpty := if headPositive then armOf headEmptyReturns else .other,
       stateFromTick := stateFromTick && execReturnsFetchErr, popErrReturned := popErrReturned,
       popEmpty := if popEmptyReturned && popEmptyUnlessSizeZero then .unlessSizeZero
         else if popEmptyReturned then .returned else .nil,
       pushErrReturned := pushErrReturned }
   match loopCases with
+  | [("backingOff", a2), ("err != nil", a1), ("queueSize == 0", a3), ("default", a4)] =>
+    common true a1 .deadline a2 a3 a4
   | [("err != nil", a1), ("time.Now().Before(retryAt)", a2), ("queueSize == 0", a3), ("default", a4)] =>
-    common a1 .deadline a2 a3 a4
-  | [("err != nil", a1), ("failed", a2), ("queueSize == 0", a3), ("default", a4)] => common a1 .flag a2 a3 a4
-  | [("err != nil", a1), ("queueSize == 0", a3), ("default", a4)] => common a1 .none "" a3 a4
-  | _ => common "" .none "" "" ""
+    common false a1 .deadline a2 a3 a4
+  | [("err != nil", a1), ("failed", a2), ("queueSize == 0", a3), ("default", a4)] => common false a1 .flag a2 a3 a4
+  | [("err != nil", a1), ("queueSize == 0", a3), ("default", a4)] => common false a1 .none "" a3 a4
+  | _ => common false "" .none "" "" ""
 
 def apiName : ApiCall → String
   | .schedulePush => "ScheduleJob.Push" | .deleteRemove => "DeleteJob.Remove" | .clearClear => "Clear.Clear"
@@ -76,67 +83,101 @@ namespace Faults
 /-! ## Back-off -/
 
 /-- One iteration, any inputs:
-    (1) a failing `Size()` / `Head()` arms `RetryInterval` in the same iteration;
+    (1) a failing `Size()` / `Head()` arms `RetryInterval` in the same iteration and sets the deadline `retryAt` to its
+        clock reading plus `RetryInterval` (a failing `Pop()` / `Push()` on the tick that follows can only move it
+        further);
     (2) a failing `Pop()` / `Push()` (necessarily on a tick) sets the deadline `retryAt` to the clock reading plus
         `RetryInterval`;
-    (3) before the deadline the timer is armed for exactly the deadline, whatever the queue answers;
-    (4) an interrupt leaves the back-off state as it is. -/
+    (3) before the deadline the timer is armed for exactly the deadline and the queue is asked nothing — no `Size()`,
+        no `Head()`: the only queue calls of such an iteration are those of the tick, if the timer fires;
+    (4) an interrupted iteration without a `Size()` / `Head()` error leaves the back-off state as it is. -/
 theorem C15_backoff_step (S : Shape) (hS : WF S) (c : Cfg) (trig : Trig) (st : BState) (i : In) :
-    ((iter S c trig st i).armErr = true → (iter S c trig st i).armed = c.R) ∧
+    ((iter S c trig st i).armErr = true → (iter S c trig st i).armed = c.R ∧
+      (i.interrupted = true → (iter S c trig st i).st.retryAt = some (i.now2 + c.R)) ∧
+      (i.now2 ≤ i.nowErr → ∃ r', (iter S c trig st i).st.retryAt = some r' ∧ i.now2 + c.R ≤ r')) ∧
     ((iter S c trig st i).tickErr = true →
       i.interrupted = false ∧ (iter S c trig st i).st.retryAt = some (i.nowErr + c.R)) ∧
-    (∀ n r, i.size = some n → st.retryAt = some r → i.now1 < r → i.now2 + (iter S c trig st i).armed = r) ∧
-    (i.interrupted = true → (iter S c trig st i).st = st) := by
-  refine ⟨iter_armErr S hS c trig st i, iter_tickErr S hS c trig st i, ?_,
-    fun h => (iter_interrupted S c trig st i h).1⟩
-  intro n r h1 h2 h3
-  rw [iter_armed_backoff S hS c trig st i n r h1 h2 h3]; omega
+    (∀ r, st.retryAt = some r → i.now1 < r → i.now2 + (iter S c trig st i).armed = r ∧
+      (iter S c trig st i).armErr = false ∧
+      (iter S c trig st i).calls = (if i.interrupted then [] else (fetch S c trig i).calls)) ∧
+    (i.interrupted = true → (iter S c trig st i).armErr = false → (iter S c trig st i).st = st) := by
+  refine ⟨fun h => ⟨iter_armErr S hS c trig st i h, ?_, iter_armErr_retryAt S hS c trig st i h⟩,
+    iter_tickErr S hS c trig st i, ?_, ?_⟩
+  · intro hint
+    rw [(iter_interrupted S c trig st i hint).1, iter_armErr_st S hS c trig st i h]
+  · intro r h2 h3
+    have hb : inBackoff S st i.now1 = true := by simp [inBackoff, hS.2.1, h2, h3]
+    refine ⟨?_, (iter_backoff_quiet S hS c trig st i hb).1, (iter_backoff_quiet S hS c trig st i hb).2.2⟩
+    rw [iter_armed_backoff S hS c trig st i r h2 h3]; omega
+  · intro hint harm
+    rw [(iter_interrupted S c trig st i hint).1, harm, afterArm_noErr]
 
 /-- For every sequence of inputs (every fault assignment, every pattern of interrupts) whose clock readings are
     monotone and whose timers do not fire early: if iteration `k` had a loop-side error, then
-    * if it was a `Size()`/`Head()` error and the wait was not ended by an interrupt, the tick (and with it the next
-      queue call, `Pop()`) came at least `RetryInterval` after the timer was armed;
+    * if it was a `Size()`/`Head()` error, read off the clock at `ik.now2`: the tick of the same iteration (and with it
+      the next queue call, `Pop()`) came at least `RetryInterval` after the timer was armed unless an interrupt ended
+      the wait — and WHATEVER ended the wait, **no** later iteration ticks before `ik.now2 + RetryInterval` and **no**
+      later iteration asks `Size()` (the call that an iteration outside the back-off window begins with; inside it there
+      is no `Size()` and no `Head()` call at all) before that moment: interrupts do not make the loop ask the failing
+      queue again;
     * if it was a `Pop()`/`Push()` error, read off the clock at `ik.nowErr`, then **no** later iteration ticks before
-      `ik.nowErr + RetryInterval`: no `Pop()` is attempted before that moment, whatever interrupts arrive. -/
+      `ik.nowErr + RetryInterval` and none asks `Size()` before that moment: no queue call at all is attempted before
+      it, whatever interrupts arrive. -/
 theorem C15_backoff (S : Shape) (hS : WF S) (c : Cfg) (trig : Trig) (st0 : BState) (prev : Int) (ins : List In)
     (hwt : WellTimed S c trig st0 prev ins) (k : Nat) (ik : In) (ok : Out)
     (hik : ins[k]? = some ik) (hok : (runLoop S c trig st0 ins).1[k]? = some ok) :
-    (ok.armErr = true → ik.interrupted = false → ik.tArm + c.R ≤ ik.tickAt) ∧
-    (ok.tickErr = true → ∀ j ij, k < j → ins[j]? = some ij → ij.interrupted = false →
-      ik.nowErr + c.R ≤ ij.tickAt) := by
-  induction ins generalizing st0 prev k with
-  | nil => simp at hik
-  | cons i is ih =>
-    obtain ⟨w1, w2, w3, w4, w5, w6, w7, wrest⟩ := hwt
-    cases k with
-    | zero =>
-      have hik' : i = ik := by simpa using hik
-      have hok' : iter S c trig st0 i = ok := by simpa [runLoop] using hok
-      subst hik'; subst hok'
-      refine ⟨?_, ?_⟩
-      · intro herr hni
-        have := w5 hni
-        rw [iter_armErr S hS c trig st0 i herr] at this
-        exact this
-      · intro herr j ij hj hij hni
-        cases j with
-        | zero => omega
-        | succ j =>
-          simp only [List.getElem?_cons_succ] at hij
-          have hst := (iter_tickErr S hS c trig st0 i herr).2
-          exact no_tick_before S hS c trig (i.nowErr + c.R) is _ i.nowErr _ hst (Int.le_refl _) (Int.le_refl _)
-            wrest j ij hij hni
-    | succ k =>
-      simp only [List.getElem?_cons_succ] at hik
-      simp only [runLoop, List.getElem?_cons_succ] at hok
-      obtain ⟨h1, h2⟩ := ih _ _ wrest k hik hok
-      refine ⟨h1, ?_⟩
-      intro herr j ij hj hij hni
-      cases j with
-      | zero => omega
-      | succ j =>
-        simp only [List.getElem?_cons_succ] at hij
-        exact h2 herr j ij (by omega) hij hni
+    (ok.armErr = true → (ik.interrupted = false → ik.tArm + c.R ≤ ik.tickAt) ∧
+      ∀ j ij oj, k < j → ins[j]? = some ij → (runLoop S c trig st0 ins).1[j]? = some oj →
+        (ij.interrupted = false → ik.now2 + c.R ≤ ij.tickAt) ∧
+        (∀ o, oj.calls.head? = some (.size, o) → ik.now2 + c.R ≤ ij.now1)) ∧
+    (ok.tickErr = true → ∀ j ij, k < j → ins[j]? = some ij →
+      (ij.interrupted = false → ik.nowErr + c.R ≤ ij.tickAt) ∧
+      (∀ oj o, (runLoop S c trig st0 ins).1[j]? = some oj → oj.calls.head? = some (.size, o) →
+        ik.nowErr + c.R ≤ ij.now1)) := by
+  obtain ⟨t1, t2, t3, t4, t5, t6⟩ := wellTimed_at S c trig st0 prev ins hwt k ik ok hik hok
+  have hst : ∃ stk, ok = iter S c trig stk ik := by
+    clear hwt t6
+    induction ins generalizing st0 k with
+    | nil => simp at hik
+    | cons i is ih =>
+      cases k with
+      | zero =>
+        have hik' : i = ik := by simpa using hik
+        have hok' : iter S c trig st0 i = ok := by simpa [runLoop] using hok
+        subst hik'; exact ⟨st0, hok'.symm⟩
+      | succ k =>
+        simp only [List.getElem?_cons_succ] at hik
+        simp only [runLoop, List.getElem?_cons_succ] at hok
+        exact ih _ k hik hok
+  obtain ⟨stk, rfl⟩ := hst
+  refine ⟨?_, ?_⟩
+  · intro herr
+    refine ⟨?_, ?_⟩
+    · intro hni
+      have := t6 hni
+      rw [iter_armErr S hS c trig stk ik herr] at this
+      exact this
+    · intro j ij oj hkj hij hoj
+      exact after_deadline S hS c trig st0 prev ins hwt k ik _ hik hok (ik.now2 + c.R)
+        (iter_armErr_retryAt S hS c trig stk ik herr (by omega)) (by omega) j ij oj hkj hij hoj
+  · intro herr j ij hkj hij
+    have hX : ∃ r, (iter S c trig stk ik).st.retryAt = some r ∧ ik.nowErr + c.R ≤ r :=
+      ⟨_, (iter_tickErr S hS c trig stk ik herr).2, Int.le_refl _⟩
+    refine ⟨?_, ?_⟩
+    · intro hni
+      have hlen : j < (runLoop S c trig st0 ins).1.length := by
+        have hl : ∀ (st : BState) (l : List In), (runLoop S c trig st l).1.length = l.length := by
+          intro st l
+          induction l generalizing st with
+          | nil => simp [runLoop]
+          | cons x xs ih => simp [runLoop, ih]
+        rw [hl]
+        exact (List.getElem?_eq_some_iff.mp hij).1
+      exact (after_deadline S hS c trig st0 prev ins hwt k ik _ hik hok (ik.nowErr + c.R) hX (Int.le_refl _) j ij
+        _ hkj hij (List.getElem?_eq_getElem hlen)).1 hni
+    · intro oj o hoj hsz
+      exact (after_deadline S hS c trig st0 prev ins hwt k ik _ hik hok (ik.nowErr + c.R) hX (Int.le_refl _) j ij
+        oj hkj hij hoj).2 o hsz
 
 /-- the input of one iteration of the spinning scenario, everything happening at the instant `now`:
     one stored job whose fire time `f` has arrived, `Pop()` fails -/
@@ -161,7 +202,8 @@ theorem C15_backoff_fails_without_flag (S : Shape) (hS : WF S) (c : Cfg) (trig :
   have hit : iter (plain S) c trig {} (spinIn f now) =
       { armed := 0, calls := [(.size, .ok), (.head, .ok), (.pop, .err)], dispatched := none, pushed := none,
         popped := none, armErr := false, tickErr := true, st := {} } := by
-    simp [iter, plain, spinIn, chooseArm, inBackoff, h5, calcNextTick, hnot, fetch, Res.outcome, afterTick]
+    simp [iter, plain, spinIn, chooseArm, skipsSize, afterArm, inBackoff, h5, calcNextTick, hnot, fetch, Res.outcome,
+      afterTick]
   refine ⟨?_, ?_, ?_⟩
   · induction n with
     | zero => simp [runLoop]
@@ -185,13 +227,16 @@ theorem C15_interrupts_postpone_recovery (S : Shape) (c : Cfg) (trig : Trig) (in
   | nil => simp [runLoop]
   | cons i is ih =>
     obtain ⟨hi1, hi2⟩ := hall i (by simp)
+    have hA : ∀ b t, afterArm (flagVariant S) c { failed := true } b t = { failed := true } := by
+      intro b t; unfold afterArm flagVariant; cases S.stateFromArm <;> simp
     have hi := iter_interrupted (flagVariant S) c trig { failed := true } i hi1
+    rw [hA] at hi
     have ih' := ih (fun x hx => hall x (by simp [hx]))
     have harm : (iter (flagVariant S) c trig { failed := true } i).armed = c.R := by
       rw [iter_armed]
       cases hs : i.size with
       | none => simp [hs] at hi2
-      | some n => simp [chooseArm, inBackoff, flagVariant]
+      | some n => simp [chooseArm, skipsSize, inBackoff, flagVariant]
     simp only [runLoop, hi.1, List.mem_cons]
     refine ⟨ih'.1, ?_⟩
     rintro o (rfl | ho)
@@ -270,8 +315,8 @@ theorem C15_spurious_empty_spins_unrepaired (S : Shape) (hS : WF S) (c : Cfg) (t
   have hit : iter (nilOnEmptyPop (zeroOnEmptyHead S)) c trig {} (spuriousIn now) =
       { armed := 0, calls := [(.size, .ok), (.head, .empty), (.pop, .empty)], dispatched := none, pushed := none,
         popped := none, armErr := false, tickErr := false, st := {} } := by
-    simp [iter, zeroOnEmptyHead, nilOnEmptyPop, spuriousIn, chooseArm, inBackoff, h2, h5, calcNextTick, fetch,
-      Res.outcome, afterTick, h8]
+    simp [iter, zeroOnEmptyHead, nilOnEmptyPop, spuriousIn, chooseArm, skipsSize, afterArm, inBackoff, h2, h5,
+      calcNextTick, fetch, Res.outcome, afterTick, h8]
   refine ⟨?_, ?_, ⟨⟨0, rfl⟩, rfl, rfl, by simp [spuriousIn]⟩⟩
   · induction n with
     | zero => simp [runLoop]
@@ -303,8 +348,8 @@ theorem C15_empty_pop_spins_unrepaired (S : Shape) (hS : WF S) (c : Cfg) (trig :
   have hit : iter (nilOnEmptyPop S) c trig {} (emptyPopIn f now) =
       { armed := 0, calls := [(.size, .ok), (.head, .ok), (.pop, .empty)], dispatched := none, pushed := none,
         popped := none, armErr := false, tickErr := false, st := {} } := by
-    simp [iter, nilOnEmptyPop, emptyPopIn, chooseArm, inBackoff, h2, h5, calcNextTick, hnot, fetch, Res.outcome,
-      afterTick, h8]
+    simp [iter, nilOnEmptyPop, emptyPopIn, chooseArm, skipsSize, afterArm, inBackoff, h2, h5, calcNextTick, hnot, fetch,
+      Res.outcome, afterTick, h8]
   refine ⟨?_, ?_, ?_⟩
   · induction n with
     | zero => simp [runLoop]
@@ -412,21 +457,29 @@ theorem C15_one_push_per_pop (S : Shape) (c : Cfg) (trig : Trig) (i : In) :
     | none => simp
     | some t => cases i.pushOk <;> simp
 
-/-- … and these are the only `Pop()`/`Push()` calls of an iteration: before them there are only `Size()`/`Head()` -/
+/-- … and these are the only `Pop()`/`Push()` calls of an iteration: before them there are only `Size()`/`Head()`,
+    at most one of each, in this order — and neither of them while the loop is backing off (well-formed shape: the
+    back-off test comes first) -/
 theorem C15_iter_calls (S : Shape) (c : Cfg) (trig : Trig) (st : BState) (i : In) :
     ∃ pre, (∀ x ∈ pre, x.1 = .size ∨ x.1 = .head) ∧
+      (pre = [] ∨ (∃ o, pre = [(.size, o)]) ∨ (∃ o, pre = [(.head, o)]) ∨ (∃ o o', pre = [(.size, o), (.head, o')])) ∧
+      (WF S → inBackoff S st i.now1 = true → pre = []) ∧
       (iter S c trig st i).calls = pre ++ (if i.interrupted then [] else (fetch S c trig i).calls) := by
-  refine ⟨(.size, if i.size.isSome then .ok else .err) ::
-    (if decide (chooseArm S st i.size i.now1 = .nextTick) then [(.head, i.head.outcome)] else []), ?_, ?_⟩
+  refine ⟨(if !skipsSize S st i.now1 then [(.size, if i.size.isSome then .ok else .err)] else []) ++
+    (if decide (chooseArm S st i.size i.now1 = .nextTick) then [(.head, i.head.outcome)] else []), ?_, ?_, ?_, ?_⟩
   · intro x hx
-    simp only [List.mem_cons] at hx
-    rcases hx with rfl | hx
-    · simp
+    simp only [List.mem_append] at hx
+    rcases hx with hx | hx
     · split at hx <;> simp at hx
       subst hx; simp
-  · unfold iter
-    simp only
-    cases i.interrupted <;> simp
+    · split at hx <;> simp at hx
+      subst hx; simp
+  · cases skipsSize S st i.now1 <;> cases decide (chooseArm S st i.size i.now1 = .nextTick) <;> simp
+  · intro hS hb
+    have h := (iter_backoff_quiet S hS c trig st i hb).2.1
+    have hsk : skipsSize S st i.now1 = true := by simp [skipsSize, hb, hS.2.2.2.2.2.2.2.2.2.2.2.1]
+    simp [hsk, h]
+  · exact iter_calls_eq S c trig st i
 
 /-- For ALL fault plans (any calls failing, any interrupts, any clock readings), over a queue that stores what is
     pushed (and on which a failed call has no effect), with triggers whose fire times strictly increase and distinct
@@ -439,35 +492,50 @@ theorem C15_no_double_fire (S : Shape) (c : Cfg) (hthr : 0 ≤ c.thr) (trig : Tr
 
 /-! ## Recovery -/
 
-/-- The deadline is not postponed: under an arbitrary stream of interrupts (and arbitrary queue answers) the back-off
-    state does not change, every iteration before the deadline `r` arms its timer for exactly `r`, and every
-    iteration from `r` on is outside the back-off case. With timers that fire on time the loop therefore ticks at `r`
-    at the latest, however dense the interrupt traffic is. -/
+/-- The deadline is not postponed: under an arbitrary stream of interrupts the back-off state does not change as long
+    as the queue does not fail anew AFTER the deadline (before the deadline it is not asked, so its answers — `size`,
+    `head` of the inputs — are arbitrary and irrelevant); every iteration before the deadline `r` arms its timer for
+    exactly `r` and asks the queue nothing; every iteration from `r` on is outside the back-off case. With timers that
+    fire on time the loop therefore ticks at `r` at the latest, however dense the interrupt traffic is.
+    (A `Size()` / `Head()` failure after the deadline starts a new back-off: `C15_backoff_step` (1).) -/
 theorem C15_deadline_not_postponed (S : Shape) (hS : WF S) (c : Cfg) (trig : Trig) (st : BState) (r : Int)
-    (hr : st.retryAt = some r) (ins : List In) (hall : ∀ i ∈ ins, i.interrupted = true) :
+    (hr : st.retryAt = some r) (ins : List In) (hall : ∀ i ∈ ins, i.interrupted = true)
+    (hok : ∀ i ∈ ins, r ≤ i.now1 → i.size.isSome = true ∧ i.head ≠ .err) :
     (runLoop S c trig st ins).2 = st ∧
     ∀ (k : Nat) (ik : In) (ok : Out), ins[k]? = some ik → (runLoop S c trig st ins).1[k]? = some ok →
-      (∀ n, ik.size = some n → ik.now1 < r → ik.now2 + ok.armed = r) ∧
+      (ik.now1 < r → ik.now2 + ok.armed = r ∧ ok.calls = []) ∧
       (r ≤ ik.now1 → inBackoff S st ik.now1 = false) := by
   induction ins with
   | nil => simp [runLoop]
   | cons i is ih =>
-    have hi := iter_interrupted S c trig st i (hall i (by simp))
-    have ih' := ih (fun x hx => hall x (by simp [hx]))
+    have hint := hall i (by simp)
+    have hi := iter_interrupted S c trig st i hint
+    have harm : (iter S c trig st i).armErr = false := by
+      by_cases hlt : i.now1 < r
+      · exact ((C15_backoff_step S hS c trig st i).2.2.1 r hr hlt).2.1
+      · obtain ⟨h1, h2⟩ := hok i (by simp) (by omega)
+        rw [iter_armErr_eq]
+        cases hs : i.size with
+        | none => simp [hs] at h1
+        | some n => simp [h2]
+    rw [harm, afterArm_noErr] at hi
+    have ih' := ih (fun x hx => hall x (by simp [hx])) (fun x hx => hok x (by simp [hx]))
     simp only [runLoop, hi.1]
     refine ⟨ih'.1, ?_⟩
-    intro k ik ok hik hok
+    intro k ik ok hik hok'
     cases k with
     | zero =>
       have hik' : i = ik := by simpa using hik
-      have hok' : iter S c trig st i = ok := by simpa using hok
-      subst hik'; subst hok'
-      refine ⟨fun n hn hlt => ((C15_backoff_step S hS c trig st i).2.2.1 n r hn hr hlt), ?_⟩
-      intro hge
-      simp [inBackoff, hS.2.1, hr]; omega
+      have hok'' : iter S c trig st i = ok := by simpa using hok'
+      subst hik'; subst hok''
+      refine ⟨fun hlt => ?_, ?_⟩
+      · obtain ⟨a1, _, a3⟩ := (C15_backoff_step S hS c trig st i).2.2.1 r hr hlt
+        exact ⟨a1, by rw [a3]; simp [hint]⟩
+      · intro hge
+        simp [inBackoff, hS.2.1, hr]; omega
     | succ k =>
-      simp only [List.getElem?_cons_succ] at hik hok
-      exact ih'.2 k ik ok hik hok
+      simp only [List.getElem?_cons_succ] at hik hok'
+      exact ih'.2 k ik ok hik hok'
 
 /-- Once no queue call fails any more (any clock readings, any interrupts, ticks on an honestly empty queue included):
     the back-off state is never touched again; the loop pops, dispatches and reschedules exactly what the loop
@@ -500,15 +568,22 @@ theorem C15_recovers (S : Shape) (hS : WF S) (c : Cfg) (trig : Trig) (s : LState
 
 /-- An honestly empty queue is not a failing queue: a tick whose `Pop()` answers `ErrQueueEmpty` and whose `Size()`,
     asked under the queue lock, answers 0 (the last job was deleted or cleared after the timer was armed) leaves the
-    back-off state as it is — in particular it does not start a back-off — and dispatches nothing. A job scheduled
+    back-off state as the arming part of the iteration left it — as it was, unless `Size()` / `Head()` failed in this
+    very iteration — in particular it does not start a back-off, and dispatches nothing. A job scheduled
     afterwards is therefore not held back (C05). -/
 theorem C15_honest_empty_pop (S : Shape) (hS : WF S) (c : Cfg) (trig : Trig) (st : BState) (i : In)
     (hni : i.interrupted = false) (hpop : i.pop = .empty) (hsz : i.size2 = some 0) :
-    (iter S c trig st i).st = st ∧ (iter S c trig st i).dispatched = none ∧
+    ((iter S c trig st i).armErr = false → (iter S c trig st i).st = st) ∧
+    (iter S c trig st i).st = afterArm S c st (iter S c trig st i).armErr i.now2 ∧
+    (iter S c trig st i).dispatched = none ∧
     (iter S c trig st i).popped = none ∧ (iter S c trig st i).tickErr = false := by
   obtain ⟨e1, _, e3, e4, e5⟩ := iter_fields S c trig st i
   obtain ⟨n1, n2, _, n4⟩ := fetch_popEmpty_nothing S c trig i hpop
-  rw [e1, e3, e4, e5, n1, n2, n4, fetch_popEmpty_honest S hS c trig i hpop hsz, afterTick_noErr S c st _ hS]
+  have h5 : (iter S c trig st i).st = afterArm S c st (iter S c trig st i).armErr i.now2 := by
+    rw [e5, fetch_popEmpty_honest S hS c trig i hpop hsz, afterTick_noErr S c _ _ hS]
+    simp [hni]
+  refine ⟨fun h => by rw [h5, h, afterArm_noErr], h5, ?_⟩
+  rw [e1, e3, e4, n1, n2, n4]
   simp [hni]
 
 /-- Negative control (the behaviour of 78e46a3, which returned every empty `Pop()` as an error): once a tick happens
@@ -529,13 +604,15 @@ theorem C15_empty_queue_keeps_polling (S : Shape) (hS : WF S) (c : Cfg) (trig : 
   have hpp := (fetch_popEmpty_nothing (alwaysOnEmptyPop S) c trig (inOf [] p) hpe).2.1
   have hret : (fetch (alwaysOnEmptyPop S) c trig (inOf [] p)).retErr = true := by
     simp [fetch, hpe, alwaysOnEmptyPop]
+  have hp' : p.faultFree = true := by simp [Plan.faultFree, *]
+  have ha := iter_faultFree_armErr (alwaysOnEmptyPop S) c trig st [] p hp'
   refine ⟨?_, ?_⟩
-  · simp only [iterQ, qAfter, e3, e5, hi, hpp, hret, Bool.false_eq_true, ↓reduceIte]
+  · simp only [iterQ, qAfter, e3, e5, hi, hpp, hret, ha, afterArm_noErr, Bool.false_eq_true, ↓reduceIte]
     simp [afterTick, alwaysOnEmptyPop, hS.2.2.2.2.2.2.2.1, hS.2.1, inOf]
   · intro r hlt
     simp only [iterQ]
     rw [iter_armed]
-    simp [chooseArm, inBackoff, alwaysOnEmptyPop, inOf, hS.2.1, hS.2.2.1, hfs, hlt]
+    simp [chooseArm, skipsSize, inBackoff, alwaysOnEmptyPop, inOf, hS.2.1, hS.2.2.1, hfs, hlt]
 
 /-! ## The facts of the current source -/
 
@@ -550,9 +627,14 @@ theorem C15_facts_dispatch : Generated.Faults.dispatchOnlyIfValid = true := by d
 theorem C15_holds (c : Cfg) (trig : Trig) (st0 : BState) (prev : Int) (ins : List In)
     (hwt : WellTimed Generated.Faults.shape c trig st0 prev ins) (k : Nat) (ik : In) (ok : Out)
     (hik : ins[k]? = some ik) (hok : (runLoop Generated.Faults.shape c trig st0 ins).1[k]? = some ok) :
-    (ok.armErr = true → ik.interrupted = false → ik.tArm + c.R ≤ ik.tickAt) ∧
-    (ok.tickErr = true → ∀ j ij, k < j → ins[j]? = some ij → ij.interrupted = false →
-      ik.nowErr + c.R ≤ ij.tickAt) :=
+    (ok.armErr = true → (ik.interrupted = false → ik.tArm + c.R ≤ ik.tickAt) ∧
+      ∀ j ij oj, k < j → ins[j]? = some ij → (runLoop Generated.Faults.shape c trig st0 ins).1[j]? = some oj →
+        (ij.interrupted = false → ik.now2 + c.R ≤ ij.tickAt) ∧
+        (∀ o, oj.calls.head? = some (.size, o) → ik.now2 + c.R ≤ ij.now1)) ∧
+    (ok.tickErr = true → ∀ j ij, k < j → ins[j]? = some ij →
+      (ij.interrupted = false → ik.nowErr + c.R ≤ ij.tickAt) ∧
+      (∀ oj o, (runLoop Generated.Faults.shape c trig st0 ins).1[j]? = some oj → oj.calls.head? = some (.size, o) →
+        ik.nowErr + c.R ≤ ij.now1)) :=
   C15_backoff Generated.Faults.shape (by decide) c trig st0 prev ins hwt k ik ok hik hok
 
 /-! ## Non-vacuity -/
